@@ -109,19 +109,6 @@ theorem labelsOf_wire (n : WName) (h : n.WF) : Spec.Tsig.labelsOf n.wire = some 
   rw [List.append_nil] at this
   rw [this]
 
-/-- what the delimitation of a record says about its extent -/
-theorem delim_extent (req : Bytes) (pos : Nat) (d : Spec.Server.Delim) (h : Spec.Server.specDelimit req pos = some d) :
-    d.pos = pos ∧ d.next = d.ownerEnd + 10 + d.rdlen ∧ d.next ≤ req.size := by
-  rw [specDelimit_eq] at h
-  split at h
-  · split at h
-    · rename_i hc
-      simp only [Option.some.injEq] at h
-      rw [← h]
-      exact ⟨rfl, rfl, hc.2⟩
-    · cases h
-  · cases h
-
 /-- **C10 (1a), the request-side link.**  On a request whose scan reaches a TSIG record, the audit's
     own view of the request (`viewRequest`: `findTsig`, `specDecodeName`, `labelsOf`, `parseRdata`, the
     request prefix) and the model's run (`TsigRun`: the `t`, `mw`, `r'` of `handle_message`) are about
@@ -143,6 +130,7 @@ theorem request_view (cfg : Server.Cfg) (tr : Server.Transport) (now bufLen : Na
       Spec.ServerTsig.findTsig req = some d ∧ d.ty = 250 ∧ d.cls = 255 ∧ d.rawTtl = 0 ∧
       Spec.specDecodeName req d.pos = some (owner, nl, fl) ∧ kn.WF ∧ kn.wire = owner ∧
       alg.WF ∧ tsigRd req d = alg.wire ++ rest ∧ 10 ≤ rest.length ∧
+      Spec.Tsig.field16 rest 8 + 16 ≤ rest.length ∧ 12 ≤ d.pos ∧ 1 ≤ Spec.Server.hdr req 10 ∧
       mw = req.extract 0 d.pos ∧ r'.cursor = d.next ∧
       t = ⟨Tsig.lowerName owner, Tsig.lowerName alg.wire,
         (Tsig.rd16 (alg.wire ++ rest) (alg.wire.length + 8)).toNat, alg.wire ++ rest⟩ ∧
@@ -158,9 +146,13 @@ theorem request_view (cfg : Server.Cfg) (tr : Server.Transport) (now bufLen : Na
           Spec.ServerTsig.findKey keys kn.labels⟩ := by
   obtain ⟨t, mw, r', question, d, hrun, hfind, hmw, hr', owner, nl, fl, p, hdn, hpu, hlen10, hlay, ht⟩ :=
     tsigRun_view cfg tr now bufLen req hbuf hpay hreq hr hv
-  obtain ⟨d0, _, _, hfind0, g1, g2, g3, _, _, hdel, _⟩ := findTsig_of_tsigReached _ _ req hr hv
+  obtain ⟨d0, p1, p2, hfind0, g1, g2, g3, _, _, hdel, hplain, hwalk0, _, hpos12⟩ := findTsig_of_tsigReached _ _ req hr hv
   rw [hfind] at hfind0
   cases hfind0
+  have har1 : 1 ≤ Spec.Server.hdr req 10 := by
+    by_cases h0 : Spec.Server.hdr req 10 = 0
+    · rw [h0] at hwalk0; simp [Spec.ServerTsig.walk] at hwalk0
+    · omega
   obtain ⟨_, hnext, hnsz⟩ := delim_extent req d.pos d hdel
   -- the key name
   have hpc : ∃ p0, parseCompressed req d.pos = .ok p0 ∧ p0.wire = owner := by
@@ -220,7 +212,7 @@ theorem request_view (cfg : Server.Cfg) (tr : Server.Transport) (now bufLen : Na
     rw [hEl]
     exact parseRdata_layout alg halgwf rest h10 (by omega) (by omega)
   refine ⟨t, mw, r', question, d, owner, nl, fl, kn, alg, rest, hrun, hfind, g1, g2, g3, hdn, hknwf, hknw, halgwf, htd,
-    h10, hmw, hr', ht', ?_, ?_⟩
+    h10, by omega, hpos12, har1, hmw, hr', ht', ?_, ?_⟩
   · rw [ht']; exact fieldsAgree_of _ alg rest h10
   · unfold Spec.ServerTsig.viewRequest
     rw [hfind]
